@@ -14,7 +14,8 @@ REPO = os.environ.get("VERIF_REPO", "/repo")
 GUARD = "ORQUESTRA_QUANTUM_VERIF"
 # runs against a scratch copy of the repository (self-tests with seeded changes) must not overwrite the
 # evidence / replay files of /repo itself
-OUT_DIR = VERIF if os.path.realpath(REPO) == "/repo" else os.path.join("/var/tmp", "vf-scratch-out")
+# (one directory per scratch copy, so that concurrent scratch runs never share replay files)
+OUT_DIR = VERIF if os.path.realpath(REPO) == "/repo" else os.environ.get("VERIF_OUT", os.path.realpath(REPO).rstrip("/") + ".out")
 
 EXIT_OK, EXIT_VIOLATION, EXIT_HARNESS = 0, 1, 3
 
